@@ -239,10 +239,11 @@ theorem get_spec (m : Method) (cfg : Cfg α) (φ : Oracle α) (s0 : Eval α) (t0
   · simp only [get, hd]
     exact ⟨by simp, fun h => by simp at h⟩
 
-/-- positivity of the returned step through the preamble -/
-theorem get_pos (m : Method) (cfg : Cfg α) (φ : Oracle α) (s0 : Eval α) (t0 : α) (he : 0 < cfg.macheps)
-    (hdo : ∀ t ctx, 0 < t → (doGet m cfg φ s0 t ctx).ok = true → 0 < (doGet m cfg φ s0 t ctx).t) :
-    (get m cfg φ s0 t0).ok = true → 0 < (get m cfg φ s0 t0).t := by
+/-- a property of the returned step carried through the preamble (which hands a positive step to `do_get`) -/
+theorem get_step_prop (P : α → Prop) (m : Method) (cfg : Cfg α) (φ : Oracle α) (s0 : Eval α) (t0 : α)
+    (he : 0 < cfg.macheps)
+    (hdo : ∀ t ctx, 0 < t → (doGet m cfg φ s0 t ctx).ok = true → P (doGet m cfg φ s0 t ctx).t) :
+    (get m cfg φ s0 t0).ok = true → P (get m cfg φ s0 t0).t := by
   by_cases hd : hasDescent s0.g = true
   · obtain ⟨_, h2, _⟩ := shrink_spec φ cfg.maxIter (initialStep cfg t0) ⟨s0, []⟩
     have hp := h2 (initialStep_pos cfg t0 he)
@@ -261,5 +262,49 @@ theorem get_pos (m : Method) (cfg : Cfg α) (φ : Oracle α) (s0 : Eval α) (t0 
       intro h; simp at h
   · simp only [get, hd]
     intro h; simp at h
+
+/-- positivity of the returned step through the preamble -/
+theorem get_pos (m : Method) (cfg : Cfg α) (φ : Oracle α) (s0 : Eval α) (t0 : α) (he : 0 < cfg.macheps)
+    (hdo : ∀ t ctx, 0 < t → (doGet m cfg φ s0 t ctx).ok = true → 0 < (doGet m cfg φ s0 t ctx).t) :
+    (get m cfg φ s0 t0).ok = true → 0 < (get m cfg φ s0 t0).t :=
+  get_step_prop (fun x => 0 < x) m cfg φ s0 t0 he hdo
+
+/-! ### Moré–Thuente: the trial step never becomes negative (it can become 0 through the `stp = stx` fallback) -/
+
+theorem dcstep_stx_nonneg (cfg : Cfg α) (s : DC α) (fp dp lo hi : α) (h1 : 0 ≤ s.stx) (h2 : 0 ≤ s.stp) :
+    0 ≤ (dcstep cfg s fp dp lo hi).stx := by
+  unfold dcstep
+  exact ite_post (P := fun d : DC α => 0 ≤ d.stx) (fun _ => h1)
+    (fun _ => ite_post (P := fun d : DC α => 0 ≤ d.stx) (fun _ => h2) (fun _ => h2))
+
+theorem mtDcstep_stx_nonneg (cfg : Cfg α) (s0 : Eval α) (m : MT α) (f g : α) (b : Bool) (h1 : 0 ≤ m.dc.stx)
+    (h2 : 0 ≤ m.dc.stp) : 0 ≤ (mtDcstep cfg s0 m f g b).stx := by
+  unfold mtDcstep
+  exact ite_post (P := fun d : DC α => 0 ≤ d.stx) (fun _ => dcstep_stx_nonneg cfg _ _ _ _ _ h1 h2)
+    (fun _ => dcstep_stx_nonneg cfg _ _ _ _ _ h1 h2)
+
+theorem mtBounds_nonneg (cfg : Cfg α) (m : MT α) (b : Bool) (dc : DC α) (he : 0 < cfg.macheps) (h1 : 0 ≤ dc.stx) :
+    0 ≤ (mtBounds cfg m b dc).dc.stx ∧ 0 ≤ (mtBounds cfg m b dc).dc.stp := by
+  unfold mtBounds
+  refine ⟨h1, ?_⟩
+  have hmin : 0 < stpmin cfg.macheps := stpmin_pos _ he
+  have hmax : 0 < stpmax cfg.macheps := by unfold stpmax; exact div_pos one_pos hmin
+  exact ite_post (P := fun x : α => 0 ≤ x) (fun _ => h1) (fun _ => le_of_lt (clamp_pos _ _ _ hmin hmax))
+
+theorem morethuente_nonneg (cfg : Cfg α) (φ : Oracle α) (s0 : Eval α) (he : 0 < cfg.macheps) :
+    ∀ (n : Nat) (m : MT α) (ctx : Ctx α), 0 ≤ m.dc.stx → 0 ≤ m.dc.stp → 0 ≤ (morethuente cfg φ s0 n m ctx).t := by
+  intro n
+  induction n with
+  | zero => intro m ctx _ h; simpa [morethuente] using h
+  | succ n ih =>
+    intro m ctx h1 h2
+    have hn := mtBounds_nonneg cfg m
+      (if m.stage1 = true ∧ ctx.cur.f ≤ s0.f + m.dc.stp * (cfg.c1 * s0.g) ∧ ctx.cur.g ≥ 0 then false else m.stage1)
+      (mtDcstep cfg s0 m ctx.cur.f ctx.cur.g
+        (if m.stage1 = true ∧ ctx.cur.f ≤ s0.f + m.dc.stp * (cfg.c1 * s0.g) ∧ ctx.cur.g ≥ 0 then false else m.stage1))
+      he (mtDcstep_stx_nonneg cfg s0 m _ _ _ h1 h2)
+    simp only [morethuente]
+    exact ite_post (P := fun r : Res α => 0 ≤ r.t) (fun _ => h2)
+      (fun _ => ite_post (P := fun r : Res α => 0 ≤ r.t) (fun _ => ih _ _ hn.1 hn.2) (fun _ => hn.2))
 
 end NanoVerif.LSearch
